@@ -9,10 +9,13 @@ import (
 	"compress/gzip"
 	"encoding/hex"
 	"encoding/json"
+	"encoding/pem"
 	"fmt"
 	"io"
 	"net/http"
 	"net/http/httptest"
+	"os"
+	"path/filepath"
 	"strings"
 	"sync"
 
@@ -60,6 +63,12 @@ type Server struct {
 	MaxPack uint64
 	// OneBytePerFlush makes packfile and JSON responses trickle out one byte per chunk (C18 over real HTTP).
 	OneBytePerFlush bool
+	// AbortPackAt > 0: the AbortPackAt-th packfile exchanged from now on (a packfile answer of upload-pack, or a packfile
+	// request of receive-pack) is cut by the server - the answer stops half way through its body and the stream is reset
+	// (HTTP/2: RST_STREAM INTERNAL_ERROR, HTTP/1.1: the connection is dropped). One shot. Aborted counts what fired.
+	AbortPackAt int
+	Aborted     int
+	packsSeen   int
 
 	mu       sync.Mutex
 	Log      []ReqLog
@@ -94,7 +103,43 @@ func (s *Server) Mount(prefix string, sub *Server) {
 	s.mux.Handle(prefix+"/", http.StripPrefix(prefix, sub.mux))
 }
 
+// NewTLS is New over TLS with HTTP/2 enabled. The first call makes this process trust the test server's certificate
+// (SSL_CERT_FILE, read once by crypto/x509 when the first certificate is verified), so that wrgl's own client - which
+// the harness cannot hand a transport to when it drives the command line - negotiates h2 with it.
+func NewTLS(db objects.Store, rs ref.Store, maxPack uint64) *Server {
+	s := NewCore(db, rs, maxPack)
+	s.HTTP = httptest.NewUnstartedServer(s.mux)
+	s.HTTP.EnableHTTP2 = true
+	s.HTTP.StartTLS()
+	trustOnce.Do(func() {
+		f := filepath.Join(os.TempDir(), fmt.Sprintf("verif-refserver-cert-%d.pem", os.Getpid()))
+		os.WriteFile(f, pem.EncodeToMemory(&pem.Block{Type: "CERTIFICATE", Bytes: s.HTTP.Certificate().Raw}), 0o644)
+		os.Setenv("SSL_CERT_FILE", f)
+	})
+	return s
+}
+
+var trustOnce sync.Once
+
 func (s *Server) URL() string { return s.HTTP.URL }
+
+// abortNow says whether the packfile being exchanged is the one to cut (and counts it).
+func (s *Server) abortNow() bool {
+	s.packsSeen++
+	if s.AbortPackAt > 0 && s.packsSeen == s.AbortPackAt {
+		s.AbortPackAt = 0
+		s.Aborted++
+		return true
+	}
+	return false
+}
+
+// Arm makes the n-th packfile from now on the one that is cut.
+func (s *Server) Arm(n int) {
+	s.mu.Lock()
+	defer s.mu.Unlock()
+	s.packsSeen, s.AbortPackAt = 0, n
+}
 
 func (s *Server) Close() {
 	if s.HTTP != nil {
@@ -187,6 +232,16 @@ func (s *Server) sendPackfile(w http.ResponseWriter, l *ReqLog, id string, u *up
 	}
 	w.Header().Set("Content-Type", ctPackfile)
 	w.WriteHeader(http.StatusOK)
+	if s.abortNow() {
+		// the answer breaks off half way; the session is dead as far as the server is concerned
+		delete(s.uploads, id)
+		w.Write(buf.Bytes()[:buf.Len()/2])
+		if fl, ok := w.(http.Flusher); ok {
+			fl.Flush()
+		}
+		s.Log[len(s.Log)-1].Note = "aborted mid-body"
+		panic(http.ErrAbortHandler)
+	}
 	if s.OneBytePerFlush {
 		fl, _ := w.(http.Flusher)
 		for _, b := range buf.Bytes() {
@@ -333,6 +388,14 @@ func (s *Server) handleReceivePack(w http.ResponseWriter, r *http.Request) {
 			s.fail(w, &l, 400, "packfile without a negotiated session")
 			return
 		}
+		abort := s.abortNow()
+		if abort && s.Aborted%2 == 1 {
+			// the request is dropped before anything of it was looked at
+			delete(s.receives, id)
+			l.Note = "aborted before processing"
+			s.logReq(l)
+			panic(http.ErrAbortHandler)
+		}
 		var body io.Reader = r.Body
 		if r.Header.Get("Content-Encoding") == "gzip" {
 			gz, err := gzip.NewReader(r.Body)
@@ -357,6 +420,16 @@ func (s *Server) handleReceivePack(w http.ResponseWriter, r *http.Request) {
 			return
 		}
 		l.Status = 200
+		if abort {
+			// the packfile was received and stored; the answer is lost and the session with it
+			if done {
+				s.applyUpdates(ses.updates)
+			}
+			delete(s.receives, id)
+			l.Note = "aborted after processing"
+			s.logReq(l)
+			panic(http.ErrAbortHandler)
+		}
 		if !done {
 			s.logReq(l)
 			w.WriteHeader(http.StatusOK)
